@@ -116,7 +116,7 @@ def master_loop_cases(ctx):
     real_mpi = netmod.mpi
     assert real_mpi.available is False
     k = 0
-    cap = 6000 if ctx.thorough else 400
+    cap = 24000 if ctx.thorough else 400
     nets = 0
     while ctx.time_left() > 0 and k < cap:
         nets += 1
@@ -335,7 +335,7 @@ def kernel_partition_cases(ctx):
             one_graph(A, w, cid, compositions(N), True)
     # random partitions on larger graphs
     k = 0
-    while ctx.time_left() > 5 and k < (400 if ctx.thorough else 40):
+    while ctx.time_left() > 5 and k < (2400 if ctx.thorough else 40):
         k += 1
         if not mine_in(ctx, k, KERN):
             continue
@@ -355,7 +355,7 @@ def kernel_partition_cases(ctx):
         one_graph(A, w, cid, plist, False)
     # target partitions of the n.s.i. betweenness kernel
     k = 0
-    while ctx.time_left() > 2 and k < (600 if ctx.thorough else 60):
+    while ctx.time_left() > 2 and k < (4000 if ctx.thorough else 60):
         k += 1
         if not mine_in(ctx, k, KERN):
             continue
@@ -416,7 +416,7 @@ if __name__ == "__main__":
 def pool_cases(ctx):
     import json
     import tempfile
-    n_cases = 4 if ctx.thorough else 1
+    n_cases = 8 if ctx.thorough else 1
     for i in range(n_cases):
         cid = f"pool:{i}"
         if not ctx.want(cid):
